@@ -190,11 +190,6 @@ func (m *Machine) evalBool(c *Term) bool {
 }
 
 func (m *Machine) query(extra ...*Term) (string, map[string]uint64) {
-	if m.h != nil && m.h.stopped.Load() {
-		// the exploration of this harness has ended (enough counterexamples,
-		// budget, engine error): paths still running are abandoned
-		panic(pathAbort{"exploration stopped"})
-	}
 	as := make([]*Term, 0, len(m.pc)+len(extra))
 	as = append(as, m.pc...)
 	as = append(as, extra...)
